@@ -40,7 +40,7 @@ def main():
     out += ["", "%d breaking changes: %d caught by the check of the property they were written against, %d of them with a concrete failing input." % (len(br), caught, concrete),
             "%d behaviour-preserving changes (ids H*): %d leave every check anchored in the changed headers silent; the others raise only `no-failing-input-found` alarms (named obligation / harness build), listed above." % (len(hr), silent), ""]
     open(os.path.join(V, "VALIDATION.md"), "w").write("\n".join(out))
-    print("VALIDATION.md: %d rows" % n)
+    print("VALIDATION.md: %d rows" % len(rows))
 
 if __name__ == "__main__":
     main()
